@@ -3975,7 +3975,7 @@ func maxLines(tokens []Token, _ string) pr.CssProperty {
 	}
 	token := tokens[0]
 	if token, ok := token.(pa.Number); ok {
-		if token.IsInt() {
+		if token.IsInt() && token.Int() >= 1 {
 			return pr.TaggedInt{I: token.Int()}
 		}
 	}
